@@ -5,13 +5,19 @@ Driver module "c17": the executable HTTP model on one request / one header value
   c17 gzip <h:accept-encoding|->           → ok <0|1> <spec: 0|1>
   c17 strip h:<s> | lower h:<s>            → ok h:<result>
   c17 split h:<one char> h:<s>             → ok <;-list of h:>
-  c17 req h:<method> h:<path|-> <acc> <ae> h:<accept name> h:<accept-encoding name> <others> <pstr> <pbytes> <d>
-        acc, ae : `-` (no such field line) or `;`-list of h: values (one per field line)
-        others  : `;`-list of  h:name>h:value  put before the Accept lines (`.` for none)
-        pstr    : what parse_qs returned for the str query string:   `;`-list of  h:key>h:v1,h:v2   (`.` = {})
+  c17 urlq h:<target>                      → ok h:<Model.urlQuery target>
+  c17 decode h:<codec> x:<bytes>           → ok h:<text> | err UnicodeError
+  c17 req h:<method> h:<PATH_INFO|-> h:<target> x:<query bytes> <acc> <ae> x:<accept name> x:<accept-encoding name>
+          <others> <ptable> <pbytes> <d>
+        acc, ae : `-` (no such field line) or `;`-list of x: values (one per field line, raw bytes)
+        others  : `;`-list of  x:name>x:value  put before the Accept lines (`.` for none)
+        ptable  : parse_qs on str, as a table:  `;`-list of  h:<query>=<dict>  with dict = `.` or `&`-list of h:key>h:v1,h:v2 ;
+                  it must contain the latin-1 text of the query bytes and `urlQuery target` (else `err parse-miss`)
         pbytes  : what parse_qs returned for the bytes query string: `;`-list of  x:key>x:v1,x:v2, or `!` = it raised
-                  UnicodeEncodeError / UnicodeDecodeError
+                  UnicodeEncodeError / UnicodeDecodeError   (only reached when asgi.py does not decode the query string)
         d       : disable_compression 0|1 (WSGI/ASGI; MetricsHandler has no such switch)
+      The same bytes go to the three front-ends: WSGI sees them as latin-1 text (values of repeated field lines joined
+      with ',' as wsgiref does), ASGI as bytes, MetricsHandler as latin-1 text (http.server).
       → ok W=<obs> A=<obs> H=<obs>   with  obs = h:<status>|<headers>|<body>|<collected 0|1>   or  err:<PyErr>
         headers = `,`-list of h:name>h:value (`.` = none);  body = empty | err | <om|text>:<restr>:<gzip count>
         restr   = `-` (unrestricted) or `+` followed by `,`-list of s:<hex>/b:<hex> names
@@ -67,20 +73,18 @@ def encResp (r : Resp DBody) : String :=
 def optText (f : String) : Option (Option Str) :=
   if f = "-" then some none else (decText f).map some
 
-def decTexts (f : String) : Option (List Str) := (decList f).mapM decText
+def decOptBytesList (f : String) : Option (Option (List Bytes)) :=
+  if f = "-" then some none else ((decList f).mapM decBytes).map some
 
-def decOptTexts (f : String) : Option (Option (List Str)) :=
-  if f = "-" then some none else (decTexts f).map some
-
-def splitGt (f : String) : Option (String × String) :=
-  match f.splitOn ">" with
+def splitOn2 (sep : String) (f : String) : Option (String × String) :=
+  match f.splitOn sep with
   | [a, b] => some (a, b)
   | _ => none
 
-def decPairs (f : String) : Option (List (Str × Str)) :=
+def decBytePairs (f : String) : Option (List (Bytes × Bytes)) :=
   (decList f).mapM fun e => do
-    let (a, b) ← splitGt e
-    pure (← decText a, ← decText b)
+    let (a, b) ← splitOn2 ">" e
+    pure (← decBytes a, ← decBytes b)
 
 def decCommaTexts (f : String) : Option (List Str) :=
   if f = "" then some [] else (f.splitOn ",").mapM decText
@@ -88,15 +92,21 @@ def decCommaTexts (f : String) : Option (List Str) :=
 def decCommaBytes (f : String) : Option (List Bytes) :=
   if f = "" then some [] else (f.splitOn ",").mapM decBytes
 
-def decPStr (f : String) : Option (List (Str × List Str)) :=
-  (decList f).mapM fun e => do
-    let (a, b) ← splitGt e
+def decDict (f : String) : Option (List (Str × List Str)) :=
+  if f = "." then some [] else
+  (f.splitOn "&").mapM fun e => do
+    let (a, b) ← splitOn2 ">" e
     pure (← decText a, ← decCommaTexts b)
+
+def decPTable (f : String) : Option (List (Str × List (Str × List Str))) :=
+  (decList f).mapM fun e => do
+    let (a, b) ← splitOn2 "=" e
+    pure (← decText a, ← decDict b)
 
 def decPBytes (f : String) : Option (PyM (List (Bytes × List Bytes))) :=
   if f = "!" then some (.error .unicodeError) else
   ((decList f).mapM fun e => do
-    let (a, b) ← splitGt e
+    let (a, b) ← splitOn2 ">" e
     pure (← decBytes a, ← decCommaBytes b)).map .ok
 
 def b01 (b : Bool) : String := if b then "1" else "0"
@@ -110,24 +120,28 @@ def specGzip (h : Option Str) : Bool :=
 def ctTag (ct : Str) : String :=
   if ct = Spec.Http.contentType .om then "om" else if ct = Spec.Http.contentType .text then "text" else "other"
 
-/-- wsgiref joins repeated field lines with ',' into one environ value -/
-def wsgiValue : Option (List Str) → Option Str
+/-- wsgiref joins repeated field lines with ',' into one environ value (latin-1 text of the bytes) -/
+def wsgiValue : Option (List Bytes) → Option Str
   | none => none
-  | some vs => some (joinWith [','] vs)
+  | some vs => some (joinWith [','] (vs.map latin1))
 
-def handleReq (method : Str) (path : Option Str) (acc ae : Option (List Str)) (an aen : Str)
-    (others : List (Str × Str)) (pstr : List (Str × List Str)) (pbytes : PyM (List (Bytes × List Bytes))) (d : Bool) :
-    String :=
-  let fields := others ++ ((acc.getD []).map fun v => (an, v)) ++ ((ae.getD []).map fun v => (aen, v))
-  let environ : Environ := ⟨wsgiValue acc, wsgiValue ae, some [], method, path⟩
-  let w := match wsgiApp env (fun _ => pstr) d environ with
-    | .ok r => encResp r
-    | .error e => "err:" ++ e.name
-  let a := match asgiApp env (fun _ => pstr) (fun _ => pbytes) (fun _ => .ok []) d ⟨fields, some []⟩ with
-    | .ok r => encResp r
-    | .error e => "err:" ++ e.name
-  let h := encResp (handlerGet env (fun _ => pstr) (fun _ => []) ⟨fields, path.getD []⟩)
-  s!"ok W={w} A={a} H={h}"
+def handleReq (method : Str) (pathInfo : Option Str) (target : Str) (qs : Bytes) (acc ae : Option (List Bytes))
+    (an aen : Bytes) (others : List (Bytes × Bytes)) (ptable : List (Str × List (Str × List Str)))
+    (pbytes : PyM (List (Bytes × List Bytes))) (d : Bool) : String :=
+  match ptable.lookup (latin1 qs), ptable.lookup (urlQuery target) with
+  | some _, some _ =>
+    let parseQs : Str → List (Str × List Str) := fun q => (ptable.lookup q).getD []
+    let fields := others ++ ((acc.getD []).map fun v => (an, v)) ++ ((ae.getD []).map fun v => (aen, v))
+    let environ : Environ := ⟨wsgiValue acc, wsgiValue ae, some (latin1 qs), method, pathInfo⟩
+    let w := match wsgiApp env parseQs d environ with
+      | .ok r => encResp r
+      | .error e => "err:" ++ e.name
+    let a := match asgiApp env parseQs (fun _ => pbytes) d ⟨fields, some qs⟩ with
+      | .ok r => encResp r
+      | .error e => "err:" ++ e.name
+    let h := encResp (handlerGet env parseQs ⟨fields.map fun f => (latin1 f.1, latin1 f.2), target⟩)
+    s!"ok W={w} A={a} H={h}"
+  | _, _ => "err parse-miss"
 
 def handle : List String → String
   | ["choose", f] =>
@@ -152,12 +166,23 @@ def handle : List String → String
     match decText c, decText f with
     | some [c], some s => "ok " ++ encList ((splitOn c s).map encText)
     | _, _ => "err bad-field"
-  | ["req", m, p, acc, ae, an, aen, oth, ps, pb, d] =>
-    match decText m, optText p, decOptTexts acc, decOptTexts ae, decText an, decText aen, decPairs oth, decPStr ps,
-      decPBytes pb with
-    | some m, some p, some acc, some ae, some an, some aen, some oth, some ps, some pb =>
-      handleReq m p acc ae an aen oth ps pb (d = "1")
-    | _, _, _, _, _, _, _, _, _ => "err bad-field"
+  | ["urlq", f] =>
+    match decText f with
+    | some t => "ok " ++ encText (urlQuery t)
+    | none => "err bad-field"
+  | ["decode", c, f] =>
+    match decText c, decBytes f with
+    | some c, some b =>
+      match decodeWith c b with
+      | .ok t => "ok " ++ encText t
+      | .error e => "err " ++ e.name
+    | _, _ => "err bad-field"
+  | ["req", m, p, t, qs, acc, ae, an, aen, oth, pt, pb, d] =>
+    match decText m, optText p, decText t, decBytes qs, decOptBytesList acc, decOptBytesList ae, decBytes an, decBytes aen,
+      decBytePairs oth, decPTable pt, decPBytes pb with
+    | some m, some p, some t, some qs, some acc, some ae, some an, some aen, some oth, some pt, some pb =>
+      handleReq m p t qs acc ae an aen oth pt pb (d = "1")
+    | _, _, _, _, _, _, _, _, _, _, _ => "err bad-field"
   | _ => "err bad-op"
 
 end PromVerif.Drv.C17
